@@ -93,3 +93,103 @@ Proof.
   apply (q_close_R Q R QR NumQ NumR NumQR); try apply nat_R_refl; try reflexivity;
     auto using list_R_map2.
 Qed.
+
+(* ------------------------------------------------------------------------------------ *)
+(* End-to-end: if c17_check, as executed by vm_compute on the exact rationals of the      *)
+(* implementation output, returned all-true, the clauses of the property hold over R.     *)
+(* ------------------------------------------------------------------------------------ *)
+From Coq Require Import Lra Lia Arith.
+From MSDM Require Import base.NumR theory.RMaxTheory.
+Local Open Scope R_scope.
+
+Definition all_true6 : list bool := [true; true; true; true; true; true].
+
+Section Main.
+Variables (nS nA m : nat) (g rmax : Q) (P Rw : list (list (list Q))) (ab : list bool) (ini : list Q)
+          (eps : list (@episode Q)) (O : learner Q) (pi : list (list Q)) (ut bt pt : Q).
+Hypothesis Hm : (1 <= m)%nat.
+Hypothesis Hg0 : 0 <= Q2R g.
+Hypothesis Hg1 : Q2R g < 1.
+Hypothesis Hchk : @c17_check Q NumQ nS nA m g rmax P Rw ab ini eps O pi ut bt pt = all_true6.
+
+(* the real-valued MDP, recorded experience and learner output denoted by the rational data *)
+Definition PR := map3 Q2R P.
+Definition RwR := map3 Q2R Rw.
+Definition iniR := map Q2R ini.
+Definition epsR := map epQR eps.
+Definition OR := learnerQR O.
+Definition piR := map2 Q2R pi.
+
+Lemma clauses :
+  @c_valid R NumR nS nA (Q2R rmax) PR RwR ab iniR epsR = true /\
+  @c_tally R NumR nS nA m (Q2R g) (Q2R rmax) epsR OR = true /\
+  @c_upper R NumR nS nA (Q2R g) (Q2R rmax) OR (Q2R ut) = true /\
+  @c_unknown R NumR nS nA m (Q2R g) (Q2R rmax) OR = true /\
+  @c_bellman R NumR nS nA m (Q2R g) OR (Q2R bt) = true /\
+  @c_policy R NumR nS nA OR piR (Q2R pt) = true.
+Proof.
+  pose proof Hchk as H. rewrite c17_check_transfer in H. unfold c17_check, all_true6 in H.
+  unfold PR, RwR, iniR, epsR, OR, piR. inversion H as [[H1 H2 H3 H4 H5 H6]].
+  repeat split; first [assumption | reflexivity | congruence].
+Qed.
+
+(* every experienced step is a real transition of the MDP with the MDP's reward; episodes start in
+   the support of the initial distribution, chain, and end in an absorbing state *)
+Theorem main_valid : Forall (episode_ok nS nA (Q2R rmax) PR RwR ab iniR) epsR.
+Proof. apply cert_valid. apply clauses. Qed.
+
+(* the learner's tallies hold exactly the first min(count, m) samples of each pair *)
+Theorem main_tally : tally_spec nS nA m OR (experience epsR).
+Proof. apply (cert_tally nS nA m (Q2R g) (Q2R rmax) Hm). apply clauses. Qed.
+
+Theorem main_upper s a :
+  (s < nS)%nat -> (a < nA)%nat -> qf OR s a <= Q2R rmax / (1 - Q2R g) + Q2R ut.
+Proof. apply (cert_upper nS nA (Q2R g) (Q2R rmax) Hg1). apply clauses. Qed.
+
+Theorem main_unknown s a :
+  (s < nS)%nat -> (a < nA)%nat -> (cntf OR s a < m)%nat -> qf OR s a = Q2R rmax / (1 - Q2R g).
+Proof. apply (cert_unknown nS nA m (Q2R g) (Q2R rmax) Hg1). apply clauses. Qed.
+
+Theorem main_bellman s a :
+  (s < nS)%nat -> (a < nA)%nat -> (m <= cntf OR s a)%nat ->
+  let F := firstm m (experience epsR) s a in
+  length F = m /\
+  Rabs (qf OR s a - (rsum F / INR m
+        + Q2R g * sumf nS (fun ns => INR (ncount F ns) / INR m * @vmax R NumR nA (l_q OR) ns)))
+    <= Q2R bt.
+Proof.
+  apply (cert_bellman_explicit nS nA m (Q2R g) (Q2R rmax) Hm epsR OR (Q2R bt)); apply clauses.
+Qed.
+
+Theorem main_policy s a :
+  (s < nS)%nat -> (a < nA)%nat ->
+  (0 < untab2 piR s a <-> (forall a', (a' < nA)%nat -> qf OR s a' <= qf OR s a)) /\
+  (0 < untab2 piR s a ->
+     Rabs (untab2 piR s a * INR (countb nA (@is_max R NumR nA (l_q OR) s)) - 1) <= Q2R pt) /\
+  (~ 0 < untab2 piR s a -> untab2 piR s a = 0).
+Proof. apply (cert_policy nS nA OR piR (Q2R pt)). apply clauses. Qed.
+
+End Main.
+
+(* the mirror run: when the model learner, executed on the recorded experience over exact rationals,
+   ends within eps of msdm's Q, msdm's Q is within eps of a learner state to which every model-level
+   theorem (rmax_upper, rmax_unknown_exact, rmax_bellman_known, train_counts_capped) applies *)
+Theorem mirror_close nS nA m g rmax tol fuel exp LQ eps Qi :
+  (1 <= m)%nat -> 0 <= Q2R g -> Q2R g < 1 ->
+  Forall (valid_step nS nA (Q2R rmax)) (map stepQR exp) ->
+  @train Q NumQ nS nA m g rmax tol fuel exp = Some LQ ->
+  @q_close Q NumQ nS nA eps (l_q LQ) Qi = true ->
+  exists LR, @train R NumR nS nA m (Q2R g) (Q2R rmax) (Q2R tol) fuel (map stepQR exp) = Some LR /\
+             inv nS nA m (Q2R g) (Q2R rmax) (Q2R tol) LR /\
+             forall s a, (s < nS)%nat -> (a < nA)%nat ->
+                         Rabs (qf LR s a - untab2 (map2 Q2R Qi) s a) <= Q2R eps.
+Proof.
+  intros Hm Hg0 Hg1 Hv Ht Hc. exists (learnerQR LQ).
+  assert (HtR : @train R NumR nS nA m (Q2R g) (Q2R rmax) (Q2R tol) fuel (map stepQR exp)
+                = Some (learnerQR LQ)) by (rewrite train_transfer, Ht; reflexivity).
+  split; [exact HtR|]. split.
+  - eapply train_inv; eauto.
+  - intros s a Hs Ha. rewrite q_close_transfer in Hc. unfold q_close in Hc.
+    rewrite forallbn_spec in Hc. specialize (Hc s Hs). rewrite forallbn_spec in Hc.
+    specialize (Hc a Ha). apply ncloseb_R in Hc. exact Hc.
+Qed.
